@@ -355,10 +355,7 @@ func matchT(a, b []Piece, depth int) *Term {
 			}
 			if !same.IsTrue() {
 				// a copy is as good as a window: same contents, byte for byte
-				k := BoundVar(fresh("k"), 64)
-				ext := Forall(k, Implies(And(SLe(BVu(0, 64), k), SLt(k, x.Len)),
-					Eq(Select(x.Arr, Add(x.Off, k), 8), Select(y.Arr, Add(y.Off, k), 8))))
-				same = Or(same, ext)
+				same = Or(same, contentEq(x.Arr, x.Off, y.Arr, y.Off, x.Len))
 			}
 		}
 		return And(Eq(x.Len, y.Len), same, matchT(a[1:], b[1:], depth+1))
@@ -384,4 +381,31 @@ func matchT(a, b []Piece, depth int) *Term {
 		return And(Eq(y.Len, BVu(0, 64)), matchT(a, b[1:], depth+1))
 	}
 	return tFalse
+}
+
+
+// contentEq: the n bytes at offA of arrA equal the n bytes at offB of arrB. The quantified formula is named by a
+// Bool symbol (see QFact) and memoised, so that the same comparison made in a hypothesis and in a goal is the same
+// atom — propositional reasoning then suffices.
+var contentEqMemo = map[string]*Term{}
+
+func contentEq(arrA, offA, arrB, offB, n *Term) *Term {
+	ka := arrA.String() + "@" + offA.String()
+	kb := arrB.String() + "@" + offB.String()
+	if ka == kb {
+		return tTrue
+	}
+	if kb < ka {
+		ka, kb = kb, ka
+		arrA, offA, arrB, offB = arrB, offB, arrA, offA
+	}
+	key := ka + "|" + kb + "|" + n.String()
+	if t, ok := contentEqMemo[key]; ok {
+		return t
+	}
+	k := BoundVar(fresh("k"), 64)
+	all := Forall(k, Implies(And(SLe(BVu(0, 64), k), SLt(k, n)), Eq(Select(arrA, Add(offA, k), 8), Select(arrB, Add(offB, k), 8))))
+	qf := &Term{Leaf: fresh("qfeq"), W: 0, QDef: all}
+	contentEqMemo[key] = qf
+	return qf
 }
